@@ -2,7 +2,7 @@ import Pi2.MM.ConvCompose
 import Pi2.MM.ConvShape
 import Pi2.MM.ImportTie
 /-!
-# Databases of the shape `FragmentShape`: the role of every statement, the label table and the model database of a list of roles
+# Databases of the shape `CoreShape`: the role of every statement, the label table and the model database of a list of roles
 
 Auxiliary file of `Pi2/MM/ConvCoherence.lean`.  For a statement of a database of the shape (`Pi2/MM/ConvShape.lean`) the
 specification (`declOf`, `roleOf` of `Pi2/MM/ConvSpec.lean`) yields a role (`stmt_role`) that is related to the statement as `Rel`
